@@ -247,6 +247,10 @@ def record_silent_payments(run: Run, rnd: random.Random, thorough: bool, evs: li
             recips.append((w, m))
         if rep % 3 == 0 and len(recips) >= 2:
             recips[-1] = recips[0]                        # the same address twice
+        if rep == 1:
+            recips = [(0, None), (1, None), (0, 1)]       # two scan keys interleaved: X, Y, X's labelled address
+        if rep == 2:
+            recips = [(0, None), (1, 0), (1, None), (0, 7), (2, None), (0, None)]
         addrs, rs = [], []
         for w, m in recips:
             bscan, bspend = wallets[w]
